@@ -1,3 +1,3 @@
 SPECIFICATION Spec
-INVARIANTS VisitorLaw Emit
+INVARIANTS VisitorLaw Emit EmitMalformed
 CHECK_DEADLOCK FALSE
